@@ -54,7 +54,27 @@ def _state_from(Y, Z, n_leaves, n_clusters, X):
     return {"X": X, "leaves": leaves, "clusters": clusters}
 
 
-def job(X, hp, max_paths=60000):
+SCENARIOS = {
+    # growth histories that the exhaustive jobs (n <= 4) cannot contain: five samples, four splits
+    # A: a leaf of a cluster holding several leaves is split and BOTH children go to two other existing clusters
+    "both-children-reallocated": [dict(leaf=0, thr=2.0, tl=0, tr=1), dict(leaf=0, thr=1.0, tl=0, tr=2), dict(leaf=1, thr=3.0, tl=1, tr=0), dict(leaf=0, thr=0.0, tl=1, tr=2)],
+    # B: the LAST split is shallower than an earlier one (best-gain-first growth does that)
+    "last-split-shallower": [dict(leaf=0, thr=2.0, tl=0, tr=1), dict(leaf=0, thr=1.0, tl=0, tr=2), dict(leaf=0, thr=0.0, tl=0, tr=3), dict(leaf=1, thr=3.0, tl=1, tr=0)],
+    # C: a deep chain on the right, then the left child of the root
+    "right-chain-then-left": [dict(leaf=0, thr=1.0, tl=0, tr=1), dict(leaf=1, thr=2.0, tl=1, tr=2), dict(leaf=2, thr=3.0, tl=2, tr=3), dict(leaf=0, thr=0.0, tl=0, tr=1)],
+}
+
+
+def job_scenario(name, max_clusters=4):
+    """one scripted growth history through the REAL Kauri.fit (the stub hands over the scripted splits, each checked to be among the
+    admissible ones of the C08 oracle), then every post-condition and the symbolic new-point routing"""
+    script = SCENARIOS[name]
+    X = [[0.0], [1.0], [2.0], [3.0], [4.0]]
+    hp = dict(max_clusters=max_clusters, max_depth=None, min_samples_split=2, min_samples_leaf=1, max_leaves=None, max_features=None)
+    return job(X, hp, max_paths=64, script=script, tagname=f"scenario/{name}")
+
+
+def job(X, hp, max_paths=60000, script=None, tagname=None):
     """X: list of rows (concrete feature values: only order/ties matter); hp: Kauri hyper-parameters"""
     loader.install()
     res = {"paths": 0, "queries": 0, "obligations": [], "violations": [], "validated": 0, "witnesses": 0, "samples": []}
@@ -76,7 +96,17 @@ def job(X, hp, max_paths=60000):
             st = _state_from(Y, Z, int(n_leaves), int(n_clusters), Xa)
             alts = c08.alternatives(st, int(K_max), int(min_leaf), [int(j) for j in leaves_to_explore], [int(f) for f in feature_subset])
             log["step"] += 1
-            i = core.SymInt(f"split{log['step']}", 0, len(alts)).concretise() if alts else 0
+            if script is not None:
+                if log["step"] > len(script):
+                    return U.Split(0, -1, -1, -1, -1, 0, False)
+                want = script[log["step"] - 1]
+                hit = [a_i for a_i, a in enumerate(alts) if a[0] == want["leaf"] and a[2] == want["thr"] and a[6] == want["tl"] and a[7] == want["tr"]]
+                if not hit:
+                    log["script_invalid"] = log["step"]
+                    return U.Split(0, -1, -1, -1, -1, 0, False)
+                i = hit[0]
+            else:
+                i = core.SymInt(f"split{log['step']}", 0, len(alts)).concretise() if alts else 0
             if i == len(alts):
                 return U.Split(0, -1, -1, -1, -1, 0, False)
             j, f, t, Ls, Rs, kind, tl, tr = alts[i]
@@ -95,7 +125,7 @@ def job(X, hp, max_paths=60000):
         return mdl
 
     ex = Explorer(max_paths=max_paths, max_depth=200)
-    tagbase = f"grow/n{n}d{d}/{_hp_str(hp)}"
+    tagbase = tagname or f"grow/n{n}d{d}/{_hp_str(hp)}"
     bad_sigs = set()
     for out, pc, trace in ex.run(body, setup):
         res["paths"] += 1
@@ -111,6 +141,9 @@ def job(X, hp, max_paths=60000):
             _viol(res, bad_sigs, f"{PROP}:fit-raises:{type(exc).__name__}", f"Kauri.fit raises {type(exc).__name__} on a valid configuration", X, hp, log, tag)
             continue
         mdl = out
+        if script is not None:
+            okscript = "script_invalid" not in log and len(log["splits"]) == len(script)
+            res["obligations"].append({"name": f"{tag}/the scripted history is admissible and was followed ({len(log['splits'])} splits)", "verdict": "unsat" if okscript else "unknown", "how": "syntactic"})
         checks = _postconditions(mdl, X, hp, log, box["kernel"], kmod, U)
         for nm, ok, sig, what in checks:
             res["obligations"].append({"name": f"{tag}/{nm}", "verdict": "unsat" if ok else "sat", "how": "path-evaluation"})
@@ -402,6 +435,8 @@ def jobs(tier):
     out = []
     for xn, hp in plan:
         out.append({"name": f"grow/{xn}/{_hp_str(hp)}", "target": "checks.c09:job", "kwargs": dict(X=Xs[xn], hp=hp), "timeout": 280 if tier == "quick" else 1800})
+    for nm in SCENARIOS:
+        out.append({"name": f"scenario/{nm}", "target": "checks.c09:job_scenario", "kwargs": dict(name=nm), "timeout": 280})
     return out
 
 
